@@ -1,5 +1,5 @@
 """C16 — !append / !extend / !prev move and grow existing content without loss."""
-import copy
+import copy, os
 from .. import common, gen, mergecorr, oracles, t2
 from . import base
 from .C04 import set_plain, del_plain, wrap_at
@@ -169,6 +169,56 @@ def known_sig(kf, failing):
     return False
 
 
+def text_cases():
+    """raw-text scenarios the document grammar does not write: (a) the path of `!prev` is TEXT - also when the word reads as a YAML bool, null
+    or non-canonical number; (b) operators inside a file reached by a top-level `--- !include` see the config built by the EARLIER outer stages
+    exactly as if the documents of the file had been added directly"""
+    out = []
+    for w, key in (('no', "'no'"), ('on', "'on'"), ('off', "'off'"), ('null', "'null'"), ('007', "'007'"), ('010', "'010'"), ('0x10', "'0x10'"), ('1e3', "'1e3'"), ('yes', "'yes'")):
+        out.append(dict(text=True, kind='prev_word', stages=[f"{{{key}: [1, 2], '8': [eight], other: 3}}", f'{{picked: !prev {w}}}'],
+                        expect={'8': ['eight'], 'other': 3, 'picked': [1, 2]}))
+    out.append(dict(text=True, kind='prev_word', stages=["{'no': {a: [1]}, k: 1}", '{m: !prev no}', "{m: {a: !append [2]}}"], expect={'k': 1, 'm': {'a': [1, 2]}}))
+    inc = [dict(files={'ext.yaml': 'plugins: !append [viz, net]\npaths: {search: !extend [/opt/x]}\n'},
+                outer=['{plugins: [core, io], paths: {search: [/usr/share/app]}}'], included=['ext.yaml'],
+                expect={'plugins': ['core', 'io', 'viz', 'net'], 'paths': {'search': ['/usr/share/app', '/opt/x']}}),
+           dict(files={'ext.yaml': 'plugins: !append [viz]\n---\nplugins: !append [last]\nmoved: !prev old\n'},
+                outer=['{plugins: [core], old: {deep: [1, 2]}}'], included=['ext.yaml'],
+                expect={'plugins': ['core', 'viz', 'last'], 'moved': {'deep': [1, 2]}}),
+           dict(files={'a.yaml': 'l: !append [2]\n', 'b.yaml': 'l: !append [3]\nq: !prev k\n'},
+                outer=['{l: [1], k: {z: 0}}'], included=['a.yaml', 'b.yaml'], expect={'l': [1, 2, 3], 'q': {'z': 0}})]
+    for c in inc:
+        out.append(dict(text=True, kind='include_ops', **c))
+    return out
+
+
+def judge_text(case):
+    from awesomeyaml.builder import Builder
+    from awesomeyaml.config import Config
+    try:
+        if case['kind'] == 'prev_word':
+            b = Builder()
+            for i, t in enumerate(case['stages']):
+                b.add_source(t, raw_yaml=True, filename=f'<s{i}>')
+            got = base.to_plain(b.build())
+        else:
+            from .C06 import Sandbox
+            with Sandbox() as sb:
+                for nm, t in case['files'].items():
+                    sb.write('d/' + nm, t)
+                main = sb.write('d/main.yaml', '\n'.join('--- !include ' + f for f in case['included']) + '\n')
+                b = Builder()
+                for i, t in enumerate(case['outer']):
+                    b.add_source(t, raw_yaml=True, filename=os.path.join(sb.dir, 'd', 'outer%d.yaml' % i))
+                b.add_source(main)
+                got = base.to_plain(b.build())
+    except Exception as e:
+        return dict(case=case, reason='the operators must see the previous content; the build failed', error=type(e).__name__ + ': ' + str(e)[:200])
+    if unordered(got) != unordered(case['expect']):
+        return dict(case=case, reason=('!prev must move the subtree its TEXT names' if case['kind'] == 'prev_word' else
+                                       'operators inside a top-level included file must act on the config built by the earlier outer stages'), got=repr(got)[:400])
+    return None
+
+
 def spec_app_corr(rep, scen):
     """the reference of C16_append_end_to_end against the implementation: `!append` at a path through mappings of a tag-free base that holds a
     list there.  Coq evaluates Proofs.AppendE2E.app_at on the plain data of the base and compares it (content AND key order) with what
@@ -225,6 +275,7 @@ def run(rep, tier, rng):
         rep.case(gen.render(c['base']) + gen.render(c['newer']), len(c.get('path', c.get('target', []))) >= 2 or bool(c.get('els')),
                  sample=dict(kind=c['kind'], base=gen.render(c['base']), newer=gen.render(c['newer'])))
     spec_app_corr(rep, scen)
+    base.run_oracle(rep, 'C16', 'raw-text scenarios: !prev paths that read as YAML words; operators inside top-level included files', text_cases(), judge_text)
     base.run_oracle(rep, 'C16', 'operator scenarios vs reference', scen, judge, known_sig=known_sig,
                     show=lambda c: dict(kind=c['kind'], base=gen.render(c['base']), newer=gen.render(c['newer']), path=c.get('path'), target=c.get('target'),
                                         els=[gen.render(e) for e in c.get('els', [])], plain=(gen.render(c['plain']) if c.get('plain') else None)))
@@ -235,6 +286,10 @@ def replay(data):
     if 'input' in r:
         from ..reparse import parse_doc
         x = r['input']
+        if x.get('text') or (isinstance(x.get('case'), dict) and x['case'].get('text')):
+            f = judge_text(x.get('case', x))
+            print('replay:', 'property FAILS' if f else 'property holds', f or '')
+            return 1 if f else 0
         c = dict(kind=x['kind'], base=parse_doc(x['base']), newer=parse_doc(x['newer']), path=x.get('path'), target=x.get('target'), plain=(parse_doc(x['plain']) if x.get('plain') else None),
                  els=[parse_doc('{q: ' + e + '}')[2][0][1] for e in x.get('els', [])])
         f = judge(c)
